@@ -703,6 +703,9 @@ pub fn run_paused<W: Write + CallTag>(w: W, cfg: &CCfg, ops: &[COp], at: Vec<usi
         fn flush(&mut self) -> std::io::Result<()> {
             self.inner.flush()
         }
+        fn write_vectored(&mut self, bufs: &[std::io::IoSlice<'_>]) -> std::io::Result<usize> {
+            self.inner.write_vectored(bufs)
+        }
     }
     impl<W: CallTag> CallTag for Paused<W> {
         fn tagger(&self) -> Box<dyn Fn(usize)> {
@@ -728,6 +731,10 @@ pub fn run_plain<W: Write>(w: W, cfg: &CCfg, ops: &[COp], between: &dyn Fn(usize
         }
         fn flush(&mut self) -> std::io::Result<()> {
             self.0.flush()
+        }
+        // a wrapper must not hide the sink's own gather write
+        fn write_vectored(&mut self, bufs: &[std::io::IoSlice<'_>]) -> std::io::Result<usize> {
+            self.0.write_vectored(bufs)
         }
     }
     impl<W> CallTag for NoTag<W> {
